@@ -24,18 +24,26 @@ TRUSTED = [
 ]
 ASSUMPTIONS = [
     "'highest visible matching version' = first element of the strategy's stream for the target (proved to be a maximal version, installed "
-    "instance first among equals); 'resolvable' = the resolver, given the target pinned to exactly that package version, succeeds with a plan "
-    "accepted by C15's planOk",
+    "instance first among equals); 'resolvable' = a FRESH resolver, given the packages the earlier targets of the sequence got (pinned, in "
+    "order) and then the target pinned to exactly that package version, succeeds with a plan accepted by C15's planOk; a target that those "
+    "earlier choices satisfy by themselves is not judged (nothing is chosen for it)",
+    "a resolver that was reset() (pmerge --ignore-failures: drop the failed target, reset(), resolve the rest again) is an input like a fresh "
+    "one: the policy and the comparison with a fresh resolver apply to what it resolves afterwards",
     "repositories are homogeneous in repo.livefs and list each version once; versions accepted by isvalid_version_re",
 ]
 RULE = ("repositories of C15's generators with two source repositories (overlapping versions => ties) and one installed repository; for every "
         "target/dependency atom the real prefer_highest_version_strategy / prefer_reuse_strategy streams are compared with the Lean model and "
         "checked against the policy with the real comparisons; SEQUENCES of 2-3 targets are resolved on one long-lived resolver (one add_atom "
         "each, as pmerge does), a quarter of them on repositories with build-time dependency cycles escaped through any-of alternatives and "
-        "multi-version later targets; for every target of every sequence the first candidate of its stream is pinned on a fresh resolver on top "
-        "of the packages planned so far (oracle; plan accepted by C15's planOk) and, when that works, must be what the target gets; after each "
-        "sequence the resolver's insoluble memory is checked against the repositories; every sequence is repeated in-process and in a child "
-        "interpreter with another hash seed; non-trivial = stream with >= 3 candidates or a tie, or a target whose first candidate is "
+        "multi-version later targets, a quarter on 'late-reject' repositories (highest versions given up after part of their dependencies was "
+        "planned, with the dependency a later target; installed packages weakly blocked by the highest versions of several targets), an eighth "
+        "on C15's 'family' repositories; half of the sequences are driven like pmerge --ignore-failures (failed target dropped, reset(), the rest "
+        "resolved again on the same resolver), a third starts with a target nothing provides; for every target of every (last-episode) sequence "
+        "the first candidate of its stream is pinned on a fresh resolver on top of the packages the earlier targets got (oracle, independent of "
+        "the live resolver's history; plan accepted by C15's planOk) and, when that works, must be what the target gets — also when the live plan "
+        "satisfied the target beforehand with a package those choices do not bring in; after each sequence the resolver's insoluble memory is "
+        "checked against the repositories; every sequence is repeated on a fresh resolver in-process and in a child interpreter with another hash "
+        "seed; non-trivial = stream with >= 3 candidates or a tie, or a target whose first candidate is "
         "resolvable among >= 2 candidates")
 
 
@@ -168,8 +176,12 @@ def snapshot(r, U, index):
     return {"F": F, "merged": merged, "touched": [q for q in touched if any(c15.pid(q) == c15.pid(f) for f in F)]}
 
 
-def run_sequence(case3, mode, seq, limit=900):
-    """resolve `seq` one add_atom at a time on ONE resolver; returns (resolver, order, U, index, steps)"""
+def run_sequence(case3, mode, seq, doomed=None, ignore_failures=False, limit=900):
+    """resolve `seq` one add_atom at a time on ONE resolver; returns (resolver, order, steps of the last episode, history).
+
+    With `ignore_failures` the resolver is used the way pmerge --ignore-failures uses it: when a target cannot be resolved it is
+    dropped, the resolver is reset() and the remaining targets are resolved again on the SAME resolver (a new episode).  `doomed`
+    is a target nothing provides, put in front so that the first episode fails after the resolver has been set up."""
     fx = c15.fixture()
     r, order = build(case3, mode)
     # candidate streams are read off a SEPARATE resolver: asking the live one is not neutral (its per-repository caching iterators are
@@ -177,49 +189,89 @@ def run_sequence(case3, mode, seq, limit=900):
     probe, _ = build(case3, mode)
     U = [p for repo in order for p in repo]
     index = {c15.pid(p): i for i, p in enumerate(U)}
+    episode = ([doomed] if doomed else []) + list(seq)
+    history = []
     steps = []
+    fails = []        # targets that failed, in whatever episode: (targets of the episode up to it, step record, packages the earlier ones got)
     old = sys.getrecursionlimit()
     sys.setrecursionlimit(limit)
     try:
-        for t in seq:
-            a = fx["atom"](t)
-            before = snapshot(r, U, index)
-            presolved = bool(r.state.match_atom(a))
-            stream = list(probe.all_dbs.itermatch(a))
+        for _ in range(len(episode) + 1):
+            steps, failed, dead = [], None, False
+            for t in episode:
+                a = fx["atom"](t)
+                before = snapshot(r, U, index)
+                presolved = bool(r.state.match_atom(a))
+                stream = list(probe.all_dbs.itermatch(a))
+                try:
+                    ret = r.add_atom(a)
+                except RecursionError:
+                    steps.append({"t": t, "status": "recursion"})
+                    dead = True
+                    break
+                except Exception as e:  # noqa: BLE001
+                    steps.append({"t": t, "status": "crash", "detail": f"{type(e).__name__}: {e}"})
+                    dead = True
+                    break
+                if ret:
+                    fails.append(([st["t"] for st in steps] + [t],
+                                  {"t": t, "status": "fail", "presolved": presolved, "stream": stream, "before": before, "after": before, "got": []},
+                                  [q for st in steps for q in st["got"]], list(history) + [["add", st["t"], st["status"]] for st in steps]))
+                    steps.append({"t": t, "status": "fail"})
+                    failed = t
+                    break
+                after = snapshot(r, U, index)
+                steps.append({"t": t, "status": "ok", "presolved": presolved, "stream": stream, "before": before, "after": after,
+                              "got": [q for q in after["touched"] if a.match(q)]})
+            history += [["add", st["t"], st["status"]] for st in steps]
+            if dead or failed is None or not ignore_failures:
+                break
             try:
-                ret = r.add_atom(a)
-            except RecursionError:
-                steps.append({"t": t, "status": "recursion"})
-                break
+                r.reset()
             except Exception as e:  # noqa: BLE001
-                steps.append({"t": t, "status": "crash", "detail": f"{type(e).__name__}: {e}"})
+                steps = [{"t": "reset()", "status": "crash", "detail": f"reset() raised {type(e).__name__}: {e}"}]
                 break
-            if ret:
-                steps.append({"t": t, "status": "fail"})
+            history.append(["reset"])
+            episode = [x for x in episode if x != failed]
+            if not episode:
+                steps = []
                 break
-            steps.append({"t": t, "status": "ok", "presolved": presolved, "stream": stream, "before": before, "after": snapshot(r, U, index)})
     finally:
         sys.setrecursionlimit(old)
-    return r, order, steps
+    return r, order, steps, history, fails
 
 
-def oracle(case3, mode, before, H, limit=900):
-    """is `H` resolvable on top of the packages planned so far?  A FRESH resolver is given the planned packages pinned one by one
-    (in plan order) and then `H` pinned; returns None or (resolver, order, pin) when that succeeds in the same context with `H` chosen"""
+def oracle(case3, mode, earlier, before, a, H, limit=900):
+    """is `H` resolvable on top of what the earlier targets of the episode were given?
+
+    A FRESH resolver is given the packages the earlier targets got (`earlier`, in target order), pinned one by one; that is the context —
+    it does not depend on anything else the live resolver did before (candidates it tried and gave up, earlier episodes, reset()).  Then
+    `H` is pinned.  Returns None (no statement) or (resolver, order, pins, same, extra): `same` = the context holds exactly the packages
+    the live plan held before the target, `extra` = packages of the live plan the context does not have."""
     fx = c15.fixture()
     old = sys.getrecursionlimit()
     sys.setrecursionlimit(limit)
     try:
         r, order = build(case3, mode)
-        for q in before["touched"]:
-            if r.add_atom(fx["atom"]("=" + q.cpvstr)):
+        pins = []
+        for q in earlier:
+            pin = "=" + q.cpvstr
+            if pin in pins:
+                continue
+            if r.add_atom(fx["atom"](pin)):
                 return None
+            pins.append(pin)
         U = [p for repo in order for p in repo]
         index = {c15.pid(p): i for i, p in enumerate(U)}
         ctxt = snapshot(r, U, index)
-        if sorted(map(c15.pid, ctxt["F"])) != sorted(map(c15.pid, before["F"])) or \
-                sorted(map(c15.pid, ctxt["merged"])) != sorted(map(c15.pid, before["merged"])):
-            return None            # pinning did not reproduce the same set of packages: no statement
+        have = {c15.pid(q) for q in ctxt["F"]}
+        if any(c15.pid(q) not in have for q in earlier):
+            return None            # a pin was satisfied by a twin of the same version from another repository: not the same choices
+        same = sorted(map(c15.pid, ctxt["F"])) == sorted(map(c15.pid, before["F"])) and \
+            sorted(map(c15.pid, ctxt["merged"])) == sorted(map(c15.pid, before["merged"]))
+        extra = [q for q in before["F"] if c15.pid(q) not in have]
+        if r.state.match_atom(a):
+            return None            # the choices made for the earlier targets satisfy this target already: nothing is chosen for it
         pin = "=" + H.cpvstr
         if r.add_atom(fx["atom"](pin)):
             return None
@@ -227,7 +279,7 @@ def oracle(case3, mode, before, H, limit=900):
             return None            # the pin was satisfied by a twin of the same version from another repository
         if not any(c15.pid(q) == c15.pid(H) for q in snapshot(r, U, index)["F"]):
             return None            # H was put in place and displaced again (e.g. an installed package replaced by its source twin)
-        return r, order, [("=" + q.cpvstr) for q in before["touched"]] + [pin]
+        return r, order, pins + [pin], same, extra
     except Exception:  # noqa: BLE001 — RecursionError etc.: no witness
         return None
     finally:
@@ -246,8 +298,10 @@ def run(ctx):
     cases = []
     for c in c15.CORPUS:
         cases.append(dict(c, stream="corpus"))
-    for i in range(ctx.n(130, 2400)):
-        cases.append(gen_cycle_case(rng) if i % 4 == 3 else c15.gen_case(rng, ("dag", "dag-twins", "wild")[i % 3]))
+    for i in range(ctx.n(130, 2000)):
+        k = i % 8
+        cases.append(gen_cycle_case(rng) if k in (3, 7) else c15.gen_reject_case(rng) if k in (1, 5) else c15.gen_family_case(rng) if k == 4
+                     else c15.gen_case(rng, ("dag", "dag-twins", "wild")[i % 3]))
 
     stream_jobs = []     # (case3, atom string, mode, real stream, repos json)
     seq_jobs = []        # (case3, mode, targets so far, step index, step record)
@@ -279,24 +333,39 @@ def run(ctx):
                         pk.append({"id": ids[tuple(pid(p))], "ver": c15.lex_ver(p.version), "rev": str(p.revision or "")})
                     repos.append({"livefs": bool(repo.livefs), "pkgs": pk})
                 stream_jobs.append((case3, t, mode, real, ids, repos))
-        # ---------------- resolutions: a sequence of targets on ONE long-lived resolver (one add_atom each)
+        # ---------------- resolutions: a sequence of targets on ONE long-lived resolver (one add_atom each); failures are either the
+        # end of the sequence or — the way pmerge --ignore-failures drives a resolver — followed by reset() and a new episode without
+        # the target that failed; a third of the sequences starts with a target nothing provides
         seq = list(dict.fromkeys(case["targets"]))
         while len(seq) < 2 or (len(seq) < 3 and rng.random() < 0.4):
             extra = c15.gen_atom(rng, [n.split("/")[1] for n in names], blockers=False) if names else None
             if extra is None or extra in seq:
                 break
             seq.append(extra)
+        doomed = None
+        if rng.random() < 0.35:
+            doomed = rng.choice(["a/" + rng.choice(c15.GHOSTS), ">" + rng.choice(names) + "-" + c15.VERSIONS[-1]]) if names else "a/" + c15.GHOSTS[0]
+        ignore_failures = doomed is not None or rng.random() < 0.5
         for mode in ("upgrade", "min"):
-            r, order, steps = run_sequence(case3, mode, seq)
+            r, order, steps, history, fails = run_sequence(case3, mode, seq, doomed, ignore_failures)
+            resets = sum(1 for h in history if h[0] == "reset")
+            hist = {"history": history} if resets else {}
+            eps = [st["t"] for st in steps]
             okseq = [st["t"] for st in steps if st["status"] == "ok"]
+            ctx.count("episodes_%d" % min(resets + 1, 3))
             if steps:
-                det_jobs.append((case3, mode, [st["t"] for st in steps], steps))
+                det_jobs.append((case3, mode, eps, steps, hist))
             for k, st in enumerate(steps):
                 ctx.count(f"step{min(k + 1, 3)}_{mode}_{st['status']}")
                 if st["status"] == "crash":
-                    ctx.violation({"case": case3, "targets": seq[: k + 1], "mode": mode}, "resolver crashed: " + st["detail"])
+                    ctx.violation(dict({"case": case3, "targets": eps[: k + 1], "mode": mode}, **hist), "resolver crashed: " + st["detail"])
                 elif st["status"] == "ok":
-                    seq_jobs.append((case3, mode, seq[: k + 1], k, st))
+                    seq_jobs.append((case3, mode, eps[: k + 1], k, st, [q for s2 in steps[:k] for q in s2["got"]], hist))
+            # a target that FAILED is judged like one that got something else: if its first candidate is resolvable on top of what the
+            # earlier targets of its episode were given, the policy is broken
+            for tg, st, earlier, hbefore in fails:
+                seq_jobs.append((case3, mode, tg, len(tg) - 1, st, earlier,
+                                 {"history": hbefore + [["add", st["t"], "fail"]]} if any(h[0] == "reset" for h in hbefore) else {}))
             # the resolver's memory of insoluble atoms must be history independent: only atoms no repository provides
             for x in list(getattr(r, "insoluble", ())):
                 try:
@@ -305,7 +374,7 @@ def run(ctx):
                     continue
                 ctx.evaluations += 1
                 if prov:
-                    ctx.mismatch({"case": case3, "targets": okseq, "mode": mode},
+                    ctx.mismatch(dict({"case": case3, "targets": okseq, "mode": mode}, **hist),
                                  f"after resolving {okseq} the resolver remembers {x} as globally insoluble although {prov[0]!r} provides it "
                                  f"(model: markInsoluble / insoluble_sound)")
 
@@ -342,45 +411,55 @@ def run(ctx):
         elif got != want:
             ctx.mismatch(case, f"real stream {[repr(p) for p in real]} = ids {got}, Lean model {want}")
 
-    # ---- resolution level, for EVERY target of every sequence: the first candidate of the stream, if it is resolvable on top of what is
-    # planned so far (witness: a fresh resolver, planned packages pinned, then that candidate pinned; plan accepted by planOk), is what the
-    # target gets — whatever was resolved before on the same resolver
+    # ---- resolution level, for EVERY target of every sequence: the first candidate of the stream, if it is resolvable on top of what the
+    # earlier targets were given (witness: a fresh resolver, those packages pinned, then that candidate pinned; plan accepted by planOk), is
+    # what the target gets — whatever else happened on the same resolver before (candidates tried and given up, failed targets, reset()).
+    # A target the live plan satisfied beforehand is judged as well unless the earlier targets' own choices satisfy it in the witness too.
     pinned = []
-    for case3, mode, targets, k, st in seq_jobs:
-        if st["presolved"]:
-            ctx.count("target_already_in_plan")
-            continue
+    for case3, mode, targets, k, st, earlier, hist in seq_jobs:
         if not st["stream"]:
             continue
         H = st["stream"][0]
-        w = oracle(case3, mode, st["before"], H)
+        w = oracle(case3, mode, earlier, st["before"], atom(targets[-1]), H)
         if w is None:
-            ctx.count("first_candidate_not_resolvable")
+            ctx.count("target_already_in_plan" if st["presolved"] else "first_candidate_not_resolvable")
             continue
-        rp, orderp, pins = w
+        rp, orderp, pins, same, extra = w
         reqp, objp = check_c15(ctx, rp, orderp, pins)
-        pinned.append((case3, mode, targets, k, st, H, reqp, objp))
+        pinned.append((case3, mode, targets, k, st, H, reqp, objp, same, extra, hist))
     verdicts = ctx.model([p[6] for p in pinned])
-    for (case3, mode, targets, k, st, H, reqp, objp), vp in zip(pinned, verdicts):
-        case = {"case": case3, "targets": targets, "mode": mode}
+    for (case3, mode, targets, k, st, H, reqp, objp, same, extra, hist), vp in zip(pinned, verdicts):
+        case = dict({"case": case3, "targets": targets, "mode": mode}, **hist)
         Up, Fp, mergedp, _ = objp
         F, merged = st["after"]["F"], st["after"]["merged"]
         if vp == "bad-op" or not vp["ok"]:
             ctx.count("first_candidate_not_resolvable")
             continue
         stream = st["stream"]
-        ctx.case(case, len(stream) >= 2, key=repr((case3, targets, mode, "res")))
+        ctx.case(case, len(stream) >= 2, key=repr((case3, targets, mode, "res", hist)))
         ctx.count("first_candidate_resolvable_step%d" % min(k + 1, 3))
+        if hist:
+            ctx.count("first_candidate_resolvable_after_reset")
+        if not same:
+            ctx.count("live_plan_differs_from_fresh_resolution_of_the_same_choices")
         if H.repo.livefs:
             ctx.count("first_candidate_is_installed")
         a = atom(targets[-1])
-        present = [q for q in F if a.match(q)]
-        where = f"target #{k + 1} ({targets[-1]}) of the sequence {targets} on one resolver"
+        failed = st["status"] == "fail"
+        present = [] if failed else [q for q in F if a.match(q)]
+        if failed:
+            ctx.count("failed_target_with_resolvable_first_candidate")
+        where = f"target #{k + 1} ({targets[-1]}) of the sequence {targets} on one resolver" + (" FAILED" if failed else "") + \
+            (f" (history of that resolver: {hist['history']})" if hist else "")
+        on_top = "resolvable on top of what the earlier targets were given (pinned plan accepted by planOk)"
+        if st["presolved"] or not same:
+            on_top += (f"; the live plan held {[repr(q) for q in extra]} before this target, which a fresh resolution of the earlier targets' "
+                       f"choices does not plan")
         plan_txt = [repr(q) for q in st["after"]["touched"]]
         if mode == "upgrade":
             if not any(vcmp(q, H) == 0 for q in present):
-                ctx.violation(case, f"upgrade, {where}: highest matching version {H!r} is resolvable on top of the plan so far (pinned plan accepted "
-                                    f"by planOk) but the target got {[repr(q) for q in present]}; planned packages {plan_txt}")
+                ctx.violation(case, f"upgrade, {where}: highest matching version {H!r} is {on_top} but the target got "
+                                    f"{[repr(q) for q in present]}; planned packages {plan_txt}")
             elif H.repo.livefs and not any(vcmp(q, H) == 0 and q.repo.livefs for q in present):
                 ctx.violation(case, f"upgrade, {where}: the installed instance {H!r} of the highest version was not preferred: {[repr(q) for q in present]}")
         else:
@@ -390,25 +469,28 @@ def run(ctx):
                 needed = {c15.pid(q) for q in mergedp}
                 m = [q for q in merged if a.match(q) and c15.pid(q) not in needed]
                 if m or not any(q.repo.livefs for q in present):
-                    ctx.violation(case, f"min-install, {where}: already satisfied by installed {H!r} (resolvable) but the plan merges "
+                    ctx.violation(case, f"min-install, {where}: already satisfied by installed {H!r} ({on_top}) but the plan merges "
                                         f"{[repr(q) for q in m]} / keeps {[repr(q) for q in present]}; planned packages {plan_txt}")
             elif not any(vcmp(q, H) == 0 for q in present):
-                ctx.violation(case, f"min-install, {where}: no installed match; highest {H!r} is resolvable but the target got {[repr(q) for q in present]}")
+                ctx.violation(case, f"min-install, {where}: no installed match; highest {H!r} is {on_top} but the target got {[repr(q) for q in present]}")
 
-    # ---- determinism: repeat in-process, and in child interpreters with other hash seeds
+    # ---- determinism: repeat in-process, and in child interpreters with other hash seeds.  The targets of the last episode resolved on a
+    # fresh resolver must give what they gave on the resolver that had failed and been reset() before
     det = []
-    for case3, mode, targets, steps in det_jobs:
+    for case3, mode, targets, steps, hist in det_jobs:
         res, _, _ = resolve3(case3, mode, targets)       # the same sequence once more, fresh resolver
         ctx.evaluations += 1
         det.append((case3, mode, targets, res))
         last = steps[-1]
+        case = dict({"case": case3, "mode": mode, "targets": targets}, **hist)
+        what = "two resolutions of identical inputs differ" + (f" (first: on a resolver with the history {hist['history']}, second: fresh resolver)" if hist else "")
         if last["status"] == "ok" and res["status"] == "ok":
             first = sorted(tuple(pid(q)) for q in last["after"]["F"] if any(c15.pid(q) == c15.pid(x) for x in last["after"]["touched"]))
             second = sorted({tuple(o[-1]) for o in res["ops"]} - {tuple(o[1]) for o in res["ops"] if o[0] == "replace"})
             if first != second:
-                ctx.violation({"case": case3, "mode": mode, "targets": targets}, f"two resolutions of identical inputs differ: {first} vs {second}")
+                ctx.violation(case, f"{what}: {first} vs {second}")
         elif last["status"] != res["status"]:
-            ctx.violation({"case": case3, "mode": mode, "targets": targets}, f"two resolutions of identical inputs differ: {last['status']} vs {res['status']}")
+            ctx.violation(case, f"{what}: {last['status']} vs {res['status']}")
     det_jobs = det
     det_jobs = det_jobs[: ctx.n(180, 100000)]
     jobs = [[c3, m, tg] for c3, m, tg, _ in det_jobs]
@@ -417,7 +499,7 @@ def run(ctx):
         env = dict(os.environ, PYTHONHASHSEED=seed, VERIF_REPO=vlib.REPO)
         code = ("import sys; sys.path.insert(0, %r); sys.path.insert(0, %r); import logging; logging.disable(logging.CRITICAL); "
                 "from props import c16; c16.worker()") % (os.path.join(vlib.REPO, "src"), os.path.join(vlib.VERIF, "harness"))
-        p = subprocess.run([sys.executable, "-c", code], input=json.dumps(jobs).encode(), stdout=subprocess.PIPE, stderr=subprocess.PIPE)
+        p = subprocess.run([sys.executable, "-c", code], input=json.dumps(jobs).encode(), stdout=subprocess.PIPE, stderr=subprocess.PIPE, env=env)
         if p.returncode != 0:
             ctx.mismatch({"hashseed": seed}, "child interpreter failed: " + p.stderr.decode("utf-8", "replace")[-600:])
             continue
@@ -435,7 +517,9 @@ LEVEL_TEXT = ("Kernel-checked Lean 4 theorems about a model of the resolver's ca
               "the upgrade stream is a permutation of the candidates in PMS-descending order with the installed instance first among equal versions; "
               "its head is a maximal version; the minimal-install stream offers all installed candidates first; the stream does not depend on listing "
               "order when no two candidates tie. The model is compared with the real strategies on generated repositories, the policy is evaluated "
-              "on the real streams, and resolutions are compared with pinned resolutions and across hash seeds. The resolver's memory of insoluble "
+              "on the real streams, and resolutions — sequences of targets on one long-lived resolver, including failed targets followed by reset() and "
+              "re-resolution as pmerge --ignore-failures does — are compared with pinned resolutions on fresh resolvers (a context that does not depend "
+              "on the live resolver's history), with a fresh resolver resolving the same targets, and across hash seeds. The resolver's memory of insoluble "
               "atoms (which prunes candidates of every later target on the same resolver) only ever holds atoms no repository provides, for every "
               "history of lookups (insoluble_sound); checked on the real resolver after every target sequence.")
 LEVEL_NOTE = ("Partial: candidate ordering is proved; 'the first resolvable candidate is taken' and determinism of the whole search are sampled on the "
